@@ -59,7 +59,42 @@ def is_stem_prefix(a, b):
     return same_pl(a, b.prefix(len(a.stems)))
 
 
-def plain_pool(E, shape, L=1, tag=""):
+SPARSE_MARKS = (0, 1, 72, 73, 74, 75, 146, 147, 148, 149, 220, 221, 222, 223)
+
+
+def filler(i):
+    """concrete, position-dependent filler byte (never the separator)"""
+    v = (i * 7 + 3) % 251
+    return v if v != SEP else 0x7D
+
+
+def payload(E, name, ln, sparse=False):
+    """ln payload bytes.  sparse: only the bytes next to the block-payload boundaries,
+    the first two and the last two are symbolic; the rest is a concrete
+    position-dependent filler (a stated cut: comparisons then involve a dozen
+    symbolic bytes instead of hundreds)"""
+    if not sparse or ln <= 8:
+        return E.bytes(name, ln)
+    marks = set(m for m in SPARSE_MARKS if m < ln) | set([ln - 2, ln - 1])
+    out = E.const(b"")
+    i = 0
+    k = 0
+    while i < ln:
+        j = i
+        if i in marks:
+            while j < ln and j in marks:
+                j += 1
+            out = out + E.bytes("%s~%d" % (name, k), j - i)
+            k += 1
+        else:
+            while j < ln and j not in marks:
+                j += 1
+            out = out + E.const(bytes(filler(x) for x in range(i, j)))
+        i = j
+    return out
+
+
+def plain_pool(E, shape, L=1, tag="", sparse=False):
     """Pool of untyped LRUs.  shape = stems per LRU; each stem is L symbolic
     non-separator bytes + '|'.  Whole LRUs are assumed pairwise distinct."""
     bar = E.const(b"|")
@@ -68,7 +103,7 @@ def plain_pool(E, shape, L=1, tag=""):
         stems = []
         for j in range(ns):
             ln = L[i][j] if isinstance(L, (list, tuple)) else L
-            stems.append(E.bytes("%sp%d.%d" % (tag, i, j), ln) + bar)
+            stems.append(payload(E, "%sp%d.%d" % (tag, i, j), ln, sparse) + bar)
         pool.append(PL(stems, "%sP%d" % (tag, i)))
     distinct(E, pool)
     return pool
